@@ -171,7 +171,11 @@ class ComputeTypeVisitor(Visitor.DefaultVisitor):
                 )
                 expr.SetType(expr.GetOperator().GetReturnType())
             elif isinstance(expr, ast.AffixExpression):
-                expr.SetType(expr.children[0].GetType())
+                operandType = expr.children[0].GetType()
+                # ++ and -- are only defined (and lowered) for scalars
+                if not (operandType.IsPrimitive() and operandType.IsScalar()):
+                    Errors.ERROR_INCREMENT_REQUIRES_SCALAR.Raise(operandType)
+                expr.SetType(operandType)
 
         return expr.GetType()
 
